@@ -235,14 +235,36 @@ def main():
     else:
         harness_errors.append('driver executable missing (build failed)')
 
-    disagreements = [d for _m, r in results for d in r.disagreements]
-    violations = [(m, v) for m, r in results for v in r.violations]
+    # suites shared by several properties tag what they find; a property counts only what lies in the
+    # part of the behaviour its statement (and its theorems) are about -- see 'claims' in harness/props
+    def claimed(item, is_violation):
+        rule = spec.get('claims')
+        tags = item.get('tags')
+        if not rule or tags is None:
+            return True
+        tags = set(tags)
+        if tags & set(rule.get('exclude_tags', [])):
+            return False
+        if is_violation:
+            if rule.get('violation_require') and not set(rule['violation_require']) <= tags:
+                return False
+            if rule.get('violation_tags') and not tags & set(rule['violation_tags']):
+                return False
+        return True
+    all_dis = [d for _m, r in results for d in r.disagreements]
+    all_vio = [(m, v) for m, r in results for v in r.violations]
+    disagreements = [d for d in all_dis if claimed(d, False)]
+    violations = [(m, v) for m, v in all_vio if claimed(v, True)]
+    unclaimed = (len(all_dis) - len(disagreements), len(all_vio) - len(violations))
+    if any(unclaimed):
+        log(f'{unclaimed[0]} disagreements and {unclaimed[1]} violations seen that belong to other properties '
+            f'sharing the suite (not counted here)')
     for _m, r in results:
         harness_errors += r.harness_errors
     for name in spec['suites']:
         obligations.append(f'correspondence suite {name}')
     for m, r in results:
-        if not r.disagreements and not r.harness_errors:
+        if not [d for d in r.disagreements if claimed(d, False)] and not r.harness_errors:
             discharged.append(f'correspondence suite {r.name}')
 
     # ---- extended search when the tie is broken but no failing input yet
@@ -251,7 +273,7 @@ def main():
         log('tie broken and no failing input yet: extended search (thorough budget, next seed)')
         try:
             for m, r in run_suites(spec, 'thorough', seed + 1, log):
-                violations += [(m, v) for v in r.violations]
+                violations += [(m, v) for v in r.violations if claimed(v, True)]
         except Exception:
             harness_errors.append(traceback.format_exc())
 
@@ -321,6 +343,7 @@ def main():
             'generator_stats': stats,
             'correspondence_disagreements': len(disagreements),
             'direct_violations': len(violations),
+            'seen_but_belonging_to_other_properties': {'disagreements': unclaimed[0], 'violations': unclaimed[1]},
             'known_findings_printed': known_lines,
             'harness_errors': harness_errors,
             'traces_validated_against_impl': evaluations,
